@@ -25,7 +25,7 @@ RULE = (
     "type), unsubscribe one, re-subscribe one, create a HistoryObserver "
     "/ UnscheduledOperationsObserver (singletons, possibly a second time), "
     "create_or_get_observer(type, condition), plan: a recorder unsubscribes "
-    "itself or another one from inside its k-th callback}. Oracle: a model of the "
+    "itself or another one from inside its k-th callback, optionally subscribing a replacement in the same callback}; one recorder class is log-like (it has a length and is falsy while empty). Oracle: a model of the "
     "subscriber list predicts for every event exactly which observers are "
     "called, in which order, how often and with which argument; inside every "
     "update callback a snapshot of the dispatcher (tracking vectors, schedule, "
@@ -57,6 +57,8 @@ class Recorder(DispatcherObserver):
         self.calls = 0
         self.quit_at = None  # unsubscribe `victim` during the quit_at-th callback
         self.victim = None
+        self.swap_in = None  # ... and subscribe this observer in the same callback
+        self.updates_since_reset = 0
 
     def _maybe_unsubscribe(self):
         self.calls += 1
@@ -64,8 +66,11 @@ class Recorder(DispatcherObserver):
             target = self.victim if self.victim is not None else self
             if any(target is s for s in self.dispatcher.subscribers):
                 self.dispatcher.unsubscribe(target)
+            if self.swap_in is not None and not any(self.swap_in is s for s in self.dispatcher.subscribers):
+                self.dispatcher.subscribe(self.swap_in)
 
     def update(self, scheduled_operation):
+        self.updates_since_reset += 1
         LOG.append(
             (
                 id(self),
@@ -77,12 +82,17 @@ class Recorder(DispatcherObserver):
         self._maybe_unsubscribe()
 
     def reset(self):
+        self.updates_since_reset = 0
         LOG.append((id(self), "reset", None, None))
         self._maybe_unsubscribe()
 
 
 class SubRecorder(Recorder):
-    pass
+    """A log-like observer: it has a length (the number of dispatches seen
+    since the last reset), so it is falsy while its log is empty."""
+
+    def __len__(self):
+        return self.updates_since_reset
 
 
 def _rec_feature_class():
@@ -121,7 +131,7 @@ def strategy(tier):
         (2, st.tuples(st.just("singleton"), st.integers(0, 1), st.booleans()).map(list)),
         (3, st.tuples(st.just("cog"), st.integers(0, 3), st.integers(0, 4)).map(list)),
         (3, st.tuples(st.just("builtin"), st.integers(0, 5), st.booleans()).map(list)),
-        (2, st.tuples(st.just("plan"), st.integers(0, 9), st.integers(1, 3), st.integers(0, 9)).map(list)),
+        (3, st.tuples(st.just("plan"), st.integers(0, 9), st.integers(1, 3), st.integers(0, 9), st.integers(0, 2)).map(list)),
     )
     return st.fixed_dictionaries(
         {
@@ -181,6 +191,9 @@ def check_case(case, ctx):
                 if getattr(o, "quit_at", None) is not None and model_calls[id(o)] == o.quit_at:
                     target = o.victim if o.victim is not None else o
                     expected_subs[:] = [x for x in expected_subs if x is not target]
+                    if getattr(o, "swap_in", None) is not None and not any(o.swap_in is x for x in expected_subs):
+                        # subscribed during the round: notified from the next one on
+                        expected_subs.append(o.swap_in)
         return want
 
     for idx, ev in enumerate(events):
@@ -313,6 +326,12 @@ def check_case(case, ctx):
             vict = cands[ev[3] % len(cands)]
             o.victim = None if vict is o else vict
             o.quit_at = model_calls.get(id(o), 0) + ev[2]
+            if len(ev) > 4 and ev[4]:
+                # ... and a replacement is subscribed in the same callback
+                rep = (SubRecorder if ev[4] == 2 else Recorder)(d, subscribe=False, tag=ev[4])
+                created.append(rep)
+                intervals[id(rep)] = []
+                o.swap_in = rep
             # keep the real counter aligned with the model's
             o.calls = model_calls.get(id(o), 0)
         elif kind == "unsub":
